@@ -168,7 +168,7 @@ func init() {
 		Assume:      []string{"reference evaluator of internal/ref"},
 		QuickCap:    100 * time.Second,
 		ThoroughCap: 20 * time.Minute,
-		HangLimit:   60 * time.Second,
+		HangLimit:   240 * time.Second,
 		Run:         runC06,
 		Replay: func(c *core.Ctx, cs core.Case) *core.Viol {
 			v := c06Run(strings.Split(cs.Data, " ;; "))
